@@ -10,6 +10,7 @@ mod c05;
 mod c04;
 mod c03;
 mod c01;
+mod c02;
 
 pub struct Out {
     pub cases: BufWriter<File>,
@@ -74,6 +75,7 @@ fn main() {
             match prop {
                 "C19" => c19::gen(seed, n, &mut out),
                 "C01" => c01::gen(seed, n, &mut out),
+                "C02" => c02::gen(seed, n, &mut out),
                 "C03" => c03::gen(seed, n, &mut out),
                 "C04" => c04::gen(seed, n, &mut out),
                 "C05csr" => c05::gen_csr(seed, n, &mut out),
@@ -86,6 +88,7 @@ fn main() {
             match prop {
                 "C19" => c19::replay(&text, &mut out),
                 "C01" => for (id, h, ops) in parse_generic(&text) { c01::run_case(id, &h, &ops, &mut out) },
+                "C02" => for (id, h, ops) in parse_generic(&text) { c02::run_case(id, &h, &ops, &mut out) },
                 "C03" => for (id, h, ops) in parse_generic(&text) { c03::run_case(id, &h, &ops, &mut out) },
                 "C04" => for (id, h, ops) in parse_generic(&text) { c04::run_case(id, &h, &ops, &mut out) },
                 "C05csr" => for (id, h, ops) in parse_generic(&text) { c05::run_csr_case(id, &h, &ops, &mut out) },
